@@ -1177,6 +1177,13 @@ class Var(ArrayReduction):
             result = moment_agg(vals, sum=np.nansum, ddof=ddof, axis=(0,))
         else:
             result = moment_agg(vals, ddof=ddof, axis=(0,))
+        # pandas returns NaN unless there are more observations than ddof
+        # (moment_agg follows NumPy and divides by zero when count == ddof)
+        pairs = vals if isinstance(vals, list) else [vals]
+        count = np.sum([np.asarray(pair["n"]).sum(axis=0) for pair in pairs], axis=0)
+        if np.ndim(result) == 0:
+            return result if count - ddof > 0 else result * np.nan
+        result[count - ddof <= 0] = np.nan
         return result
 
 
